@@ -2,6 +2,7 @@ import VerifModel.Base.Proto
 import VerifModel.Model.Prob
 import VerifModel.Spec.Prob
 import VerifModel.Driver.Cont
+import VerifModel.Model.PitMass
 /-
   Driver ops for the probabilistic scores (C08).
 
@@ -100,8 +101,24 @@ def pairUp : List String → Option (List (String × String))
   | a :: b :: r => (pairUp r).map ((a, b) :: ·)
   | _ => none
 
+/-- `pitmass <x0|-> <x1|-> <obs> <pit> <u0> <u1>` : the Pit field of a variable with discrete masses; the
+numbers the generator drew are part of the op (all vectors finite and of one length) -/
+def pitMass (x0 x1 obs pit u0 u1 : String) : Option String := do
+  let opt (s : String) : Option (Option Rat) :=
+    if s == "-" then some none else match parseXR? s with
+      | some (.fin q) => some (some q)
+      | _ => none
+  let (x0, x1) := (← opt x0, ← opt x1)
+  let (o, p, a, b) := (← ratsOf? (← parseVec? obs), ← ratsOf? (← parseVec? pit), ← ratsOf? (← parseVec? u0),
+    ← ratsOf? (← parseVec? u1))
+  if o.length != p.length || o.length != a.length || o.length != b.length then none else
+  let cs : List PitMass.Case := (List.range o.length).map fun i =>
+    ⟨o.getD i 0, p.getD i 0, a.getD i 0, b.getD i 0⟩
+  some (showVec ((PitMass.randomize x0 x1 cs).map XR.fin))
+
 def handle (args : List String) : Option String :=
   match args with
+  | ["pitmass", x0, x1, obs, pit, u0, u1] => pitMass x0 x1 obs pit u0 u1
   | ["proball", p, o] => do
       let (p, o) := (← parseVec? p, ← parseVec? o)
       let (D, I) ← probDataset "bs" p o none
